@@ -1952,6 +1952,17 @@ func (k *Kernel) handleReplayedHeader(
 		}
 	}
 
+	// The replayed header must extend the header we are committing.
+	if header.Height != k.initialHeight &&
+		!bytes.Equal(header.PrevBlockHash, s.CommittingHeader.Hash) {
+		return tmelink.ReplayedHeaderValidationError{
+			Err: fmt.Errorf(
+				"replayed header's previous block hash (%x) differs from the committing header's hash (%x)",
+				header.PrevBlockHash, s.CommittingHeader.Hash,
+			),
+		}
+	}
+
 	// The hash only covers the validator hashes.
 	// The signatures below are verified against the header's validator set
 	// while the majority threshold comes from the voting view,
